@@ -320,11 +320,12 @@ def _cv_write_bad(with_alg):
 for _vn, _alg, _req in (('tls12+', T.tuple(T.int(), T.int()), lambda ns: cv_has_alg(ns)),
                         ('pre-tls12', T.none(), lambda ns: S.Not(cv_has_alg(ns)))):
     _wa = _vn == 'tls12+'
+    # per-configuration contracts: never applied modularly by contract_for (variant set), only by name in scenarios
     contract(M + 'CertificateVerify.write', name='CertificateVerify.write[%s]' % _vn, params={'self': _cv(_alg)},
              requires=_req, result=T.bytes(), ensures=_cv_write_ensures(_wa),
              raises={ValueError: ('iff', _cv_write_bad(_wa))}, prop=PROP,
              doc='15 || uint24 len || [hash(1) sig(1) from TLS1.2 on] || uint16 len || signature; ValueError iff the signature '
-                 'is 2^16 bytes or longer or an algorithm id is not a byte')
+                 'is 2^16 bytes or longer or an algorithm id is not a byte').variant = _vn
 
 
 def cv_off(ns):
